@@ -16,19 +16,22 @@ META = {
                  "+ 1 == counter_at_release; with the Lock axiom (mutual exclusion) critical sections are serialised, so the "
                  "numbers handed out under any schedule are pairwise distinct (lemma over the contract)",
     "text": "Proved for all argument values and all schedules, under the stated axiom about threading.Lock and the frame "
-            "condition that nothing else in hy/ touches _gensym_counter (checked syntactically on every run). The string part "
-            "(result starts with _hy_, is a fixed point of hy.mangle, embeds the number after the last underscore) is a "
-            "run-time contract evaluated over a generated vocabulary of argument strings and is labelled bounded, as is a "
-            "threaded stress run.",
+            "condition that nothing else in hy/ touches _gensym_counter (checked syntactically on every run). The string part is "
+            "a postcondition of the whole function over the same VCs: on every returning path the value is a hy.models.Symbol "
+            "whose text is a fixed point of hy.mangle, starts with _hy_ and ends with _<n> for the number taken under the lock "
+            "(so different calls return different symbols); hy.mangle is an uninterpreted function constrained by ground "
+            "instances of four lemmas (idempotence, stripping the _hyx_ prefix, prefix and suffix preservation), which are "
+            "assumptions validated only on an argument vocabulary (bounded). str.format / f-strings / slices / startswith are "
+            "z3 string terms (z3, then cvc5). A counter-model is replayed on the real hy.gensym. A run-time contract over the "
+            "vocabulary and a threaded stress run are labelled bounded.",
     "note": "Trusted: threading.Lock provides mutual exclusion and acquire()/release() do not raise; the Hy compiler for this "
-            "one function; hy.mangle's own postconditions (C32). This family has nothing to say about interleavings without "
-            "the Lock axiom.",
+            "one function; the four hy.mangle lemmas (its own postconditions are C32); the argument is represented by its "
+            "str(). This family has nothing to say about interleavings without the Lock axiom.",
 }
 
 
 def string_contract(chk):
-    args = ["", "x", "a-b", "foo!", "_lead", "-lead", "hyx_", "ℕ", "ｆ", "a b", "1", "X", "é", "̇", "a.b", "*", "🦑", "_", "__", "ﬁle", "µ", "Ⅳ", "ａ-ｂ",
-            "hyx_XasteriskX", "_hyx_a", "a_", "-", "--x", "x?", "a\u00a0b", "\u00e9", "e\u0301", "\u0344", "\x00", "a\nb", "\u2168"]
+    args = ARGS
     bad = []
     seen = set()
     raised = []
@@ -54,6 +57,73 @@ def string_contract(chk):
            replay={"confirmed": bool(bad), "input": f"(hy.gensym {bad[0][0]!r}) returned {bad[0][1]!r}" if bad else None})
 
 
+ARGS = ["", "x", "a-b", "foo!", "_lead", "-lead", "hyx_", "\u2115", "\uff46", "a b", "1", "X", "\u00e9", "\u0307", "a.b", "*", "\U0001f991", "_", "__",
+        "\ufb01le", "\u00b5", "\u2163", "\uff41-\uff42", "hyx_XasteriskX", "_hyx_a", "a_", "-", "--x", "x?", "a\u00a0b", "e\u0301", "\u0344", "\x00",
+        "a\nb", "\u2168", "!\u0307", "_1", "9", "\u0661", "a_7", "_hy_gensym_", "XU0X"]
+
+
+def _post(a):
+    """The property's postcondition on one real call; returns a description of what fails or None."""
+    try:
+        s = hy.gensym(a)
+    except ValueError as e:
+        if "." in str(a):
+            return None        # dotted arguments: recorded finding of its own (rtc/gensym accepts any argument string)
+        return f"raised {type(e).__name__}: {e}"
+    t = str(s)
+    if not isinstance(s, hy.models.Symbol):
+        return f"returned {type(s).__name__}"
+    if not t.startswith("_hy_"):
+        return f"{t!r} does not start with _hy_"
+    if hy.mangle(t) != t:
+        return f"{t!r} is not a fixed point of hy.mangle ({hy.mangle(t)!r})"
+    if not t.rsplit("_", 1)[-1].isdigit():
+        return f"{t!r} does not end in _<number>"
+    return None
+
+
+def concrete(name, model):
+    """Replay of a counter-model of a gensym VC on the real function: the model's argument first, then the vocabulary."""
+    cands = []
+    try:
+        import z3
+        for d in model.decls():
+            if d.name() == "g":
+                cands.append(model[d].as_string())
+    except Exception:  # noqa: BLE001
+        pass
+    for a in cands + ARGS:
+        why = _post(a)
+        if why:
+            return {"confirmed": True, "input": f"(hy.gensym {a!r})", "observed": why}
+    return {"confirmed": False, "tried": len(cands) + len(ARGS)}
+
+
+def lemmas(chk):
+    """The assumed contract of hy.mangle used by the gensym VCs (hv.pyvc.targets.GENSYM_LEMMAS), evaluated on the live function."""
+    bad = {k: None for k in targets.GENSYM_LEMMAS}
+    n = 0
+    for a in ARGS:
+        for d in (0, 1, 9, 10, 99, 1234567):
+            x = "_hy_gensym_{}_{}".format(a, d)
+            t = hy.mangle(x)
+            n += 1
+            chk.case(("lemma", a, d))
+            if hy.mangle(t) != t:
+                bad["A1"] = bad["A1"] or (x, t)
+            if t.startswith("_hyx_"):
+                u = "_" + t[5:]
+                if hy.mangle(u) != u:
+                    bad["A2"] = bad["A2"] or (x, t, u, hy.mangle(u))
+            if not (t.startswith("_hy_gensym_") or t.startswith("_hyx_hy_gensym_")):
+                bad["A3"] = bad["A3"] or (x, t)
+            if not t.endswith("_" + str(d)):
+                bad["A4"] = bad["A4"] or (x, t)
+    for k, v in targets.GENSYM_LEMMAS.items():
+        chk.ob(f"lemma/{k} holds of the live hy.mangle on the argument vocabulary", bad[k] is None, "rtc", "bounded",
+               detail=f"{n} names" if bad[k] is None else f"{v}: fails for {bad[k]!r}")
+
+
 def stress(chk):
     out = []
 
@@ -75,7 +145,9 @@ def stress(chk):
 
 
 def run(chk):
-    targets.c38(chk)
+    whole = targets.c38(chk, concrete=concrete)
+    if whole:
+        lemmas(chk)
     string_contract(chk)
     stress(chk)
     from hv.pyvc import engine
